@@ -26,7 +26,7 @@ ENV = {"ASAN_OPTIONS": "detect_leaks=1:abort_on_error=0:exitcode=99:allocator_ma
        "UBSAN_OPTIONS": "print_stacktrace=1:halt_on_error=1", "LSAN_OPTIONS": "exitcode=99"}
 
 ALLOC_FRAMES = {"should_fail", "vf_malloc", "vf_calloc", "vf_realloc", "vf_strdup", "vf_strndup", "yr_malloc", "yr_calloc", "yr_realloc",
-                "yr_strdup", "yr_strndup", "backtrace", "ledger_add"}
+                "yr_strdup", "yr_strndup", "backtrace", "ledger_add", "fp_backtrace"}
 HELPER_FILES = ("arena.c", "notebook.c", "hash.c", "stack.c", "mem.c", "sizedstr.c", "h_oom.c", "object.c", "strutils.c")
 
 
@@ -60,6 +60,12 @@ MODRULES = {
     "console": 'import "console"\nrule m { condition: console.log("x") and console.log("n: ", 3) and console.hex(10) }',
     "tests": 'import "tests"\nrule m { condition: tests.constants.one == 1 and tests.struct_array[1].i == 1 and tests.string_dict["foo"] == "foo" and tests.isum(1, 2) == 3 and tests.fsum(1.0, 2.0) == 3.0 and tests.length("ab") == 2 and tests.match(/foo/, "foo") == 3 and tests.foobar(1) == "foo" }',
 }
+
+
+# scenarios whose armed operation is one of the functions ported to Lean: (driver function, arguments from the allocation count N)
+TIE = {"load": ("load", lambda N: "n=%d" % (N - 3)), "load_ext": ("load", lambda N: "n=%d" % (N - 3)),
+       "rdefs": ("rdefs", lambda N: ""), "rdefs_twice": ("rdefs", lambda N: "twice=1"),
+       "screate": ("screate", lambda N: "n=0 strs=0"), "screate_ext": ("screate", lambda N: "n=3 strs=1")}   # EXTS: int, bool, float, string
 
 
 def scenarios(repo):
@@ -340,6 +346,51 @@ def run(tier, replay=None):
                 lsite = [int(x, 16) for x in d.get("lsite", "-").split(",") if x not in ("-", "")] if "lsite" in d else []
                 addrs.update(site); addrs.update(lsite)
                 failures.append((name, int(mode), int(k), kind, {"out": o["out"], "site_addrs": site, "lsite_addrs": lsite, "baseline": base[name]}))
+    # 3b. tie of the Lean ports (Model/AllocM.lean) to the code: per fault position the driver predicts the outcome
+    #     class and the number of blocks left allocated; the as-is port and the patched variant are both accepted
+    tie = {"cases": 0, "matches_as_is": 0, "matches_patched_only": 0, "disagree": 0}
+    if lres.get("driver_ok") and not (replay and "scenario" in replay and replay["scenario"] not in TIE):
+        tl, real = [], {}
+        for (s, lines), (res, ls) in zip(chunks, outs):
+            if s[0] not in TIE:
+                continue
+            N = int(base[s[0]]["N"])
+            for l in lines:
+                cid = l.split(" ", 1)[0]
+                name, mode, k = cid.rsplit(".", 2)
+                o = res.get(cid)
+                if o is None:
+                    continue
+                fn, arg = TIE[name]
+                tl.append("%s %s mode=%s k=%s %s" % (cid, fn, mode, k, arg(N)))
+                if o["out"] is None:
+                    real[cid] = ("CRASH", None)
+                else:
+                    d = parse_out(o["out"])
+                    real[cid] = ("OK" if d["rc"] == "OK" else "INSUFFICIENT_MEMORY" if "INSUFFICIENT_MEMORY" in d["rc"] else d["rc"], int(d["leak"].split(":")[0]))
+        if tl:
+            mo, mrc, merr = core.run_lines([core.driver_path(), "oom"], tl)
+            for l in mo:
+                cid = l.split(" ", 1)[0]
+                m = parse_out(l)
+                rrc, rleak = real[cid]
+                tie["cases"] += 1
+                as_is = (rrc == m["rc"] and rleak == int(m["leak"]) and m.get("wf", "1") == "1") or (rrc == "CRASH" and m.get("wf") == "0")
+                patched = rrc == m["rc"] and rleak == int(m.get("fixed_leak", m["leak"])) and m.get("fixed_wf", "1") == "1"
+                if as_is:
+                    tie["matches_as_is"] += 1
+                elif patched:
+                    tie["matches_patched_only"] += 1
+                else:
+                    tie["disagree"] += 1
+                    if tie["disagree"] <= 3:
+                        name, mode, k = cid.rsplit(".", 2)
+                        sc0 = next(x for x in scs if x[0] == name)
+                        chk.violation("model_tie_%s.json" % cid.replace(".", "_"), {"kind": "model-implementation-disagreement", "engine": "oom", "harness": "h_oom",
+                                      "scenario": name, "mode": int(mode), "k": int(k), "case": case_line("replay", sc0, int(mode), int(k)),
+                                      "implementation": {"rc": rrc, "leaked_blocks": rleak}, "model": l,
+                                      "note": "Lean port of the function (Model/AllocM.lean, theorems in Thm/C16.lean), as-is and patched variant"})
+                        found = True
     sym = symbolize(H, addrs)
     known = core.known_findings("C16")
     groups = {}
@@ -370,6 +421,7 @@ def run(tier, replay=None):
             if g["first"] is None:
                 g["first"] = (scn, 0, 0, "leak-foreign", {"lsan": rep[-3000:]})
     summary = []
+    known_agg = {}
     for (kind, site, ctx), g in sorted(groups.items(), key=lambda x: -x[1]["n"]):
         match = next((f for f in known if f["signature"].get("kind") == kind and f["signature"].get("site") == site and
                       f["signature"].get("ctx", ctx) == ctx), None)
@@ -377,7 +429,8 @@ def run(tier, replay=None):
         summary.append({"kind": kind, "site": site, "ctx": ctx, "cases": g["n"], "scenarios": g["scenarios"], "known": match["id"] if match else None,
                         "example": {"scenario": name, "mode": mode, "k": k}})
         if match:
-            chk.known(match, "%s id=%s kind=%s site=%s ctx=%s cases=%d (e.g. scenario=%s mode=%d k=%d)" % (match.get("text", "")[:90], match["id"], kind, site, ctx, g["n"], name, mode, k))
+            a = known_agg.setdefault(match["id"], {"f": match, "cases": 0, "sites": set(), "ex": (name, mode, k)})
+            a["cases"] += g["n"]; a["sites"].add("%s:%s" % (kind, site))
         else:
             s = next(x for x in scenarios(core.REPO) if x[0] == name)
             chk.violation("fault_%s_%s_%s.json" % (kind, re.sub(r"\W", "_", site)[:40], re.sub(r"\W", "_", ctx)[:40]),
@@ -386,12 +439,15 @@ def run(tier, replay=None):
                            "detail": {x: y for x, y in det.items() if x not in ("site_addrs", "lsite_addrs")}, "cases_in_group": g["n"],
                            "scenarios": g["scenarios"]})
             found = True
+    for fid, a in sorted(known_agg.items()):
+        chk.known(a["f"], "id=%s %s cases=%d example=(scenario=%s mode=%d k=%d) :: %s" % (fid, ",".join(sorted(a["sites"])), a["cases"], a["ex"][0], a["ex"][1], a["ex"][2],
+                                                                                  a["f"].get("text", "")[:110]))
     nontrivial = sum(v for k, v in rc_hist.items() if k != "not-reached")
     chk.cov.update({"evaluations": evaluated + len(count_lines), "distinct_nontrivial": nontrivial,
                     "rule": "one case = (scenario, mode, k): the k-th allocation of the scenario's armed operation fails (mode 2: and all later); "
                             "non-trivial = a failure was actually injected (k <= allocations performed)",
                     "scenarios": plan, "outcome_histogram": dict(sorted(rc_hist.items(), key=lambda x: -x[1])),
-                    "failure_groups": summary, "allocations_total": sum(p["N"] for p in plan.values()),
+                    "failure_groups": summary, "lean_port_tie": tie, "allocations_total": sum(p["N"] for p in plan.values()),
                     "samples": [{"scenario": s[0], "baseline": base.get(s[0])} for s in scs[:3]]})
     core.handle_broken_proof(chk, lres, found)
     chk.assumptions += ["only allocations made through libyara's allocator (yr_malloc & co.) are failed; flex/bison buffers, OpenSSL, authenticode-parser, tlsh call libc directly",
